@@ -35,6 +35,8 @@ pub(crate) struct ReqSocket {
   /// happen as a unit with respect to other send() calls on clones of this socket.
   send_serializer: tokio::sync::Mutex<()>,
   reply_available_notifier: Arc<Notify>,
+  /// Frames of the current reply that recv() has not handed out yet (frame-by-frame reading).
+  frame_recv_buffer: ParkingLotMutex<std::collections::VecDeque<Msg>>,
   pipe_read_to_endpoint_uri: RwLock<HashMap<usize, String>>,
 }
 
@@ -49,6 +51,7 @@ impl ReqSocket {
       state: ParkingLotMutex::new(ReqState::ReadyToSend),
       send_serializer: tokio::sync::Mutex::new(()),
       reply_available_notifier: Arc::new(Notify::new()),
+      frame_recv_buffer: ParkingLotMutex::new(std::collections::VecDeque::new()),
       pipe_read_to_endpoint_uri: RwLock::new(HashMap::new()),
     }
   }
@@ -137,6 +140,8 @@ impl ISocket for ReqSocket {
       }
     }
 
+    // a new request: whatever was left unread of an earlier reply is gone
+    self.frame_recv_buffer.lock().clear();
     crate::verif_point!("req.send.checked");
     let timeout_opt: Option<Duration> = { self.core.core_state.read().options.sndtimeo };
 
@@ -198,6 +203,20 @@ impl ISocket for ReqSocket {
 
     let rcvtimeo_opt: Option<Duration> = self.core.core_state.read().options.rcvtimeo;
 
+    // The reply is being read frame by frame: the next frame of it; the last one ends the exchange.
+    let buffered = self.frame_recv_buffer.lock().pop_front();
+    if let Some(frame) = buffered {
+      if !frame.is_more() {
+        let mut state_guard = self.state.lock();
+        if matches!(*state_guard, ReqState::ExpectingReply { .. }) {
+          *state_guard = ReqState::ReadyToSend;
+        }
+        drop(state_guard);
+        self.reply_available_notifier.notify_waiters();
+      }
+      return Ok(frame);
+    }
+
     {
       let op_state_guard = self.state.lock();
       if !matches!(*op_state_guard, ReqState::ExpectingReply { .. }) {
@@ -221,7 +240,11 @@ impl ISocket for ReqSocket {
             Ok((_, batch)) => {
               match self.process_incoming_zmtp_message_for_req(0, batch) {
                 Ok(mut payload) => {
-                  received_msg_result = Ok(if payload.is_empty() { Msg::new() } else { payload.remove(0) });
+                  received_msg_result = Ok(if payload.is_empty() { Msg::new() } else {
+                    let first = payload.remove(0);
+                    self.frame_recv_buffer.lock().extend(payload.into_iter());
+                    first
+                  });
                 }
                 Err(e) => received_msg_result = Err(e),
               }
@@ -244,7 +267,11 @@ impl ISocket for ReqSocket {
         received_msg_result = match res {
           Ok((_, batch)) => {
             match self.process_incoming_zmtp_message_for_req(0, batch) {
-              Ok(mut payload) => Ok(if payload.is_empty() { Msg::new() } else { payload.remove(0) }),
+              Ok(mut payload) => Ok(if payload.is_empty() { Msg::new() } else {
+                let first = payload.remove(0);
+                self.frame_recv_buffer.lock().extend(payload.into_iter());
+                first
+              }),
               Err(e) => Err(e),
             }
           }
@@ -286,6 +313,24 @@ impl ISocket for ReqSocket {
       return Err(ZmqError::InvalidState("Socket is closing".into()));
     }
 
+    // A reply partly read with recv(): the rest of it, which ends the exchange.
+    {
+      let mut rest = self.frame_recv_buffer.lock();
+      if !rest.is_empty() {
+        let mut out = FrameBatch::new();
+        for f in rest.drain(..) {
+          out.push(f);
+        }
+        drop(rest);
+        let mut state_guard = self.state.lock();
+        if matches!(*state_guard, ReqState::ExpectingReply { .. }) {
+          *state_guard = ReqState::ReadyToSend;
+        }
+        drop(state_guard);
+        self.reply_available_notifier.notify_waiters();
+        return Ok(out);
+      }
+    }
     {
       let state_guard = self.state.lock();
       if !matches!(*state_guard, ReqState::ExpectingReply { .. }) {
